@@ -541,10 +541,14 @@ class Executor:
         self.functions_run = {}
         self.stats = {'calls': 0, 'forks': 0, 'merges': 0, 'pruned': 0}
         self.prune_solver = None
+        self.prune_mode = 'all'      # 'all': every symbolic branch arm; 'forks': only model-requested path splits
+        self.int_types = set()       # MIR integer types whose values are kept as exact z3 Ints (integer mode)
         self.static_values = {}     # static name -> value (tables)
         self.call_depth = 0
         self.max_call_depth = 400
         self.trace = False
+        self.post_hooks = []      # [(compiled regex, fn(ctx, value) -> value | Fork)]
+        self.nomerge = []         # [compiled regex]: callees executed path by path (no merging); each path returns separately
         from . import models
         models.install(self)
 
@@ -554,6 +558,12 @@ class Executor:
 
     def override(self, callee, fn):
         self.overrides[callee] = fn
+
+    def no_merge(self, pattern):
+        self.nomerge.append(re.compile(pattern))
+
+    def post_hook(self, pattern, fn):
+        self.post_hooks.append((re.compile(pattern), fn))
 
     def assume(self, cond):
         if cond is True:
@@ -618,6 +628,16 @@ class Executor:
     def operand_type(self, fr, op):
         if op[0] in ('copy', 'move'):
             return self.place_type(fr, op[1])
+        if op[2] is None and isinstance(op[1], tuple) and op[1] and op[1][0] == 'named':
+            m = re.match(r'^core::num::<impl (\w+)>::(MAX|MIN|BITS)$', op[1][1])
+            if m:
+                return 'u32' if m.group(2) == 'BITS' else m.group(1)
+            try:
+                it = self.resolve_const(op[1][1])
+            except Unsupported:
+                it = None
+            if it is not None:
+                return norm_type(it.ret)
         return norm_type(op[2]) if op[2] is not None else None
 
     # ------------------------------------------------------------ memory
@@ -832,6 +852,8 @@ class Executor:
         if isinstance(v, bool):
             return v
         if isinstance(v, int):
+            if t in self.int_types:
+                return z3.IntVal(v)
             w, _ = INT_TYPES[t]
             return CI(v, w)
         if v == ():
@@ -876,6 +898,10 @@ class Executor:
             w, s = INT_TYPES[m.group(1)]
             if m.group(2) == 'BITS':
                 return CI(w, 32)
+            if m.group(1) in self.int_types:
+                if m.group(2) == 'MAX':
+                    return z3.IntVal((1 << (w - 1)) - 1 if s else (1 << w) - 1)
+                return z3.IntVal(-(1 << (w - 1)) if s else 0)
             if m.group(2) == 'MAX':
                 return CI((1 << (w - 1)) - 1 if s else (1 << w) - 1, w)
             return CI(1 << (w - 1) if s else 0, w)
@@ -989,7 +1015,10 @@ class Executor:
             a = self.eval_operand(fr, rv[2], st)
             b = self.eval_operand(fr, rv[3], st)
             ta = self.operand_type(fr, rv[2])
-            return self.binop(rv[1], a, b, ta, self.operand_type(fr, rv[3]))
+            tb = self.operand_type(fr, rv[3])
+            if ta is None and rv[1] not in ('Shl', 'Shr'):
+                ta = tb
+            return self.binop(rv[1], a, b, ta, tb)
         if k == 'unop':
             a = self.eval_operand(fr, rv[2], st)
             return self.unop(rv[1], a, self.operand_type(fr, rv[2]), st)
@@ -1118,17 +1147,17 @@ class Executor:
         if op == 'BitOr':
             return A | B
         if op == 'Eq':
-            return lift(A == B)
+            return lift(z3.simplify(A == B))
         if op == 'Ne':
-            return lift(A != B)
+            return lift(z3.simplify(A != B))
         if op == 'Lt':
-            return lift(A < B if signed else z3.ULT(A, B))
+            return lift(z3.simplify(A < B if signed else z3.ULT(A, B)))
         if op == 'Le':
-            return lift(A <= B if signed else z3.ULE(A, B))
+            return lift(z3.simplify(A <= B if signed else z3.ULE(A, B)))
         if op == 'Gt':
-            return lift(A > B if signed else z3.UGT(A, B))
+            return lift(z3.simplify(A > B if signed else z3.UGT(A, B)))
         if op == 'Ge':
-            return lift(A >= B if signed else z3.UGE(A, B))
+            return lift(z3.simplify(A >= B if signed else z3.UGE(A, B)))
         raise Unsupported('binop %s' % op)
 
     # ---- exact integer mode (DESIGN.md 3.1): values are z3 Ints, every wrap is an explicit `mod`
@@ -1159,7 +1188,8 @@ class Executor:
             r = A + B if op == 'Add' else (A - B if op == 'Sub' else A * B)
             flag = z3.Or(r < lo, r > hi)
             if ovf:
-                return (self.zint_wrap(r, w, signed), lift(z3.simplify(flag)))
+                # the MIR asserts !flag right after; the result is only used on the non-overflowing path, where it is exact
+                return (r, lift(z3.simplify(flag)))
             return self.zint_wrap(r, w, signed)
         cmp = {'Eq': lambda: A == B, 'Ne': lambda: A != B, 'Lt': lambda: A < B, 'Le': lambda: A <= B,
                'Gt': lambda: A > B, 'Ge': lambda: A >= B}
@@ -1264,6 +1294,12 @@ class Executor:
         raise Unsupported('slice_len of %r' % (v,))
 
     def cast(self, a, tsrc, tdst, kind, st):
+        if kind == 'IntToInt' and tdst in self.int_types and not is_zint(a):
+            r = self.cast_plain(a, tsrc, tdst, kind, st)
+            return self.to_zint(r, tdst)
+        return self.cast_plain(a, tsrc, tdst, kind, st)
+
+    def cast_plain(self, a, tsrc, tdst, kind, st):
         if kind == 'IntToInt':
             w, _ = INT_TYPES[tdst]
             if is_bool(a):
@@ -1299,6 +1335,25 @@ class Executor:
     def where(self, fr, bb):
         return '%s:bb%d' % (fr.item.name, bb)
 
+    def run_item_paths(self, item, args, st):
+        """Run a MIR body path by path (no merging); returns [(ret_value, state)] (possibly empty)"""
+        fr = Frame(item, next(self.fid_counter))
+        self.functions_run[item.name] = item.text_hash
+        for n, v in zip(item.args, args):
+            st.store[('L', fr.fid, n)] = v
+        self.call_depth += 1
+        try:
+            finals = self.run_body(fr, st, nomerge=True)
+        finally:
+            self.call_depth -= 1
+        out = []
+        for res in finals:
+            ret = res.store.get(('L', fr.fid, 0), UNIT)
+            for k in [k for k in res.store if k[0] == 'L' and k[1] == fr.fid]:
+                del res.store[k]
+            out.append((ret, res))
+        return out
+
     def run_item(self, item, args, st):
         """Run a MIR body with argument values; returns (ret_value, state) or (None, None) if every path diverges."""
         fr = Frame(item, next(self.fid_counter))
@@ -1327,7 +1382,7 @@ class Executor:
         assert bb == 0 and stop == EXIT
         return self.run_body(fr, st)
 
-    def run_body(self, fr, st0):
+    def run_body(self, fr, st0, nomerge=False):
         """Execute one function body.  The unrolled control-flow graph is walked in topological order
         (reverse post-order, loop iterations outermost first); all states that arrive at the same unrolled node are
         merged before the node is executed, so early returns / `?` / break / continue do not multiply paths."""
@@ -1362,13 +1417,18 @@ class Executor:
             new = []
             back = False
             for h, it, tag in ctx:
+                if h not in body:
+                    new.append((h, it, tag))     # pseudo element of the path-by-path mode
+                    continue
                 if tgt in body[h]:
                     if tgt == h and src in body[h]:
                         # back edge: next iteration of this loop, inner loops are left
                         if it + 1 > self.loop_bound:
                             self.oblige('unwind', st.guard, self.where(fr, src), 'loop bound %d exceeded' % self.loop_bound)
                             return
-                        new.append((h, it + 1, ()))
+                        # value-partition tags are recomputed at the header; path-split markers (negative) stay, so that
+                        # split paths remain apart until the loop is left
+                        new.append((h, it + 1, tuple(x for x in tag if x <= -2)))
                         back = True
                         break
                     new.append((h, it, tag))
@@ -1380,10 +1440,21 @@ class Executor:
 
         push(0, ((0, 0, ()),) if 0 in body else (), st0)
         final = None
+        finals = []
         while heap:
             k = heapq.heappop(heap)
             bb, ctx, states = pending.pop(k)
-            if bb != EXIT and ctx and ctx[-1][0] in carried:
+            if nomerge and len(states) > 1:
+                # path-by-path mode: give every arrival its own copy of the node (distinct partition tag)
+                if bb == EXIT:
+                    finals += states
+                    continue
+                for j_, s_ in enumerate(states):
+                    base = ctx if ctx else ((0, 0, ()),)      # pseudo loop element (block 0) carrying only the path tag
+                    nctx = base[:-1] + ((base[-1][0], base[-1][1], base[-1][2] + (-(100 + j_),)),)
+                    push(bb, nctx, s_)
+                continue
+            if bb != EXIT and ctx and ctx[-1][0] in carried and not any(x <= -2 for x in ctx[-1][2]):
                 # inside a loop: keep arrivals apart when the loop-carried integer locals (counters / indices) hold
                 # different concrete values, so that those stay concrete instead of becoming if-then-else terms
                 h_ = ctx[-1][0]
@@ -1402,6 +1473,7 @@ class Executor:
             st = merge_arrivals(states)
             if bb == EXIT:
                 final = st
+                finals.append(st)
                 continue
             sts, term = item.blocks[bb]
             for s in sts:
@@ -1413,7 +1485,15 @@ class Executor:
                 goto(bb, ctx, EXIT, st)
             elif kk == 'call':
                 st2 = self.exec_call(fr, bb, term, st)
-                if st2 and term[4] is not None:
+                if isinstance(st2, list):
+                    if term[4] is not None:
+                        if len(st2) > 1 and not ctx:
+                            raise Unsupported('path split requested outside any loop (states would be re-merged at once)')
+                        for i_, s_i in enumerate(st2):
+                            # keep the split paths apart for the rest of this loop iteration (fork marker in the tag)
+                            fctx = ctx[:-1] + ((ctx[-1][0], ctx[-1][1], ctx[-1][2] + (-(i_ + 2),)),) if len(st2) > 1 else ctx
+                            goto(bb, fctx, term[4], s_i)
+                elif st2 and term[4] is not None:
                     goto(bb, ctx, term[4], st2)
             elif kk == 'assert':
                 c = self.eval_operand(fr, term[1], st)
@@ -1481,7 +1561,7 @@ class Executor:
                         # compiler-asserted impossible value: obligation, does not count as an arm of the join
                         self.oblige_state('unreachable', st, grouped[t], self.where(fr, t), 'MIR `unreachable` terminator')
                         continue
-                    if self.prune_solver is not None and not self.feasible(b_and(st.guard, grouped[t])):
+                    if self.prune_solver is not None and self.prune_mode == 'all' and not self.feasible(b_and(st.guard, grouped[t])):
                         continue
                     arms.append(t)
                 if not arms:
@@ -1507,6 +1587,8 @@ class Executor:
                 raise Unsupported('unparsed block in %s: %s' % (item.name, term[1]))
             else:
                 raise Unsupported('terminator %r' % (term,))
+        if nomerge:
+            return finals
         return final
 
     def exec_stmt(self, fr, s, st):
@@ -1539,6 +1621,24 @@ class Executor:
         if res is None:
             return None
         val, st2 = res
+        if val is PATHS:
+            out = []
+            for v, s_i in st2:
+                if dest is not None and ret is not None:
+                    self.write_place(fr, dest, s_i, v)
+                out.append(s_i)
+            return out
+        if isinstance(val, Fork):
+            out = []
+            cases = [(c, v) for c, v in val.cases if c is not False]
+            uid = next(self.branch_counter)
+            live = [(c, v) for c, v in cases if self.prune_solver is None or self.feasible(b_and(st2.guard, c))]
+            for i, (c, v) in enumerate(live):
+                s_i = st2.fork(GC(c, uid, i, len(cases)) if len(cases) > 1 else c)
+                if dest is not None and ret is not None:
+                    self.write_place(fr, dest, s_i, v)
+                out.append(s_i)
+            return out
         if dest is not None and ret is not None:
             self.write_place(fr, dest, st2, val)
         return st2
@@ -1564,9 +1664,21 @@ class Executor:
         it = self.resolve_fn(ncal, argtypes, dtype)
         if it is None:
             raise Unsupported('no model and no MIR for callee %s (at %s)' % (ncal, where))
+        if any(rx.search(ncal) for rx in self.nomerge):
+            paths = self.run_item_paths(it, args, st)
+            if not paths:
+                return None
+            if len(paths) == 1:
+                return paths[0]
+            return PATHS, paths
         val, st2 = self.run_item(it, args, st)
         if st2 is None:
             return None
+        for rx, hook in self.post_hooks:
+            if rx.search(ncal):
+                ctx = CallCtx(self, st2, ncal, argtypes, dtype, where)
+                val = hook(ctx, val)
+                st2 = ctx.st
         return val, st2
 
     def resolve_fn(self, callee, argtypes, dtype):
@@ -1685,6 +1797,14 @@ class Executor:
         return val, st2
 
 
+class Fork:
+    """a model / post-hook result that splits the path: cases = [(cond, value)] (mutually exclusive)"""
+    __slots__ = ('cases',)
+
+    def __init__(self, cases):
+        self.cases = cases
+
+
 class _Marker:
     def __init__(self, n):
         self.n = n
@@ -1693,6 +1813,7 @@ class _Marker:
         return self.n
 
 
+PATHS = _Marker('PATHS')
 DIVERGE = _Marker('DIVERGE')
 NOT_HANDLED = _Marker('NOT_HANDLED')
 
